@@ -66,8 +66,10 @@ class Tools:
         ok, log = common.ocaml_build("stackbound")
         if not ok:
             raise common.BuildError("ocaml build of the stackbound engine failed:\n" + log[-3000:])
-        self.sbrun = os.path.join(common.BUILD, "ocaml", "stackbound", "run")
         self.tmp = tempfile.mkdtemp(prefix="c14.", dir="/var/tmp")
+        # private copy: another check may rebuild the engine (new .vo time stamps) while this one runs
+        self.sbrun = os.path.join(self.tmp, "sbrun")
+        shutil.copy2(os.path.join(common.BUILD, "ocaml", "stackbound", "run"), self.sbrun)
         self.names = [n.split("=")[0].strip() for n in vmcheck.opcode_names()]
         self.runs = 0
 
@@ -365,8 +367,8 @@ def _run(ctx, T):
     P = [("corpus/" + WITNESS[k], open(os.path.join(CORPUS, WITNESS[k])).read(),
           open(wit[k]["stdin"]).read() if wit[k]["stdin"] else None, ["corpus", k]) for k in IRR]
     P += c14progs.stack_programs(ctx.tier, ctx.rng)
-    exhaustive_upto = 140 if quick else 420
-    rnd_sizes = 10 if quick else 30
+    exhaustive_upto = 140 if quick else 700
+    rnd_sizes = 10 if quick else 60
     seeds = {p[0]: ctx.rng.randrange(1 << 30) for p in P}
 
     def stack_case(p):
@@ -514,7 +516,7 @@ def _run(ctx, T):
         limit_ops.update(res["limit_ops"])
         if res["nontrivial"] and not any(ev[0] in ("broken", "violation") for ev in res["events"]):
             nontrivial.add((res["id"], "stack"))
-            if samples < 3:
+            if samples < 2 or (samples < 4 and not res.get("exhaustive")):
                 samples += 1
                 ctx.sample({"program": res["id"], "kind": "stack", "model_demand": res.get("demand"),
                             "peak_sp": res.get("peak"), "instructions": res.get("steps"),
